@@ -161,6 +161,8 @@ overflow-checks = true
                                 '        }),\n' % (n, s, n, s, n, s))
                 elif m.kind == "cloc":
                     arms.append('        ("%s", "%s") => Some(render(%s::%sParser::new().parse(CLocIter { inp, pos: 0 }))),\n' % (n, s, n, s))
+                elif m.kind == "none":
+                    pass    # compile-only module (C19): no dispatch arm
                 elif m.kind == "builtin":
                     arms.append('        ("%s", "%s") => Some(render(%s::%sParser::new().parse(&inp.text))),\n' % (n, s, n, s))
                 else:
